@@ -3,7 +3,7 @@
        -> one S[...] per op (state after it), then one Q(a,b) per query on the final state.
      RD tne=.. page=.. unit=.. pool=.. tp=.. maxr=.. thr=.. refilling=.. src=<hex> actual=.. filled=.. media=<hex>
         td=.. sor=.. wor=.. ops=<op,op,..>
-       op = R/off/seg+seg/held/flags | E/off/cnt | T
+       op = R/off/seg+seg/held/flags | E/off/cnt | T | P/off/cnt
        -> one token per op `ret:ubufhex:events`, then the final store. *)
 let zs = string_of_z
 let show_ivs m = String.concat ";" (List.map (fun (s, e) -> zs s ^ "-" ^ zs e) m)
@@ -41,6 +41,7 @@ let parse_rdop s = match String.split_on_char '/' s with
       OpRead (z_of_string off, z_of_int vs, parse_held held, String.contains flags 'c', String.contains flags 's')
   | ["E"; off; cnt] -> OpEvict (z_of_string off, z_of_string cnt)
   | ["T"] -> OpEvictAll
+  | ["P"; off; cnt] -> OpPrefetch (z_of_string off, z_of_string cnt)
   | _ -> failwith ("bad rd op " ^ s)
 let show_ev = function
   | EvStat r -> "st" ^ zs r
